@@ -8,6 +8,7 @@ import itertools
 from .. import astq
 from ..closure import node_classes
 from ..core import AnalysisError
+from ..bind import make_self
 from ..minieval import Interp, Obj, Raised
 from ..model import ClassRef
 from ..schema import C_ANY, C_FRESH, W_EACH, W_FRESH, W_NODE, const_kinds
@@ -146,9 +147,9 @@ def fold_append(ctx, rep, R):
         for consts, worlds in arriving:
             n += 1
             events = []
-            br = Obj('branch', closed=False, _nodes=[], _constants={K(c) for c in chave}, _worlds=set(whave),
-                     _nextconst=K(cmark), _nextworld=wmark)
-            br._index = Obj('index', add=lambda node: events.append('index'))
+            br = make_self(m, it, ClassRef(COMMON, 'Branch'), closed=False, _nodes=[], _constants={K(c) for c in chave}, _worlds=set(whave),
+                           _nextconst=K(cmark), _nextworld=wmark, emit=None, at_emit=None,
+                           _index=Obj('index', add=lambda node: events.append('index')))
 
             def emit(ev, *a, br=br):
                 events.append(ev)
@@ -193,28 +194,40 @@ def r1(ctx, rep):
         rep.finding(R1, f'C06.R1/Branch.append/{p}', m.loc(COMMON, fn), 'Branch.append',
                     f'{p}; example pre-state/arrival: {ex}')
     rep.floor('C06.R1', 'pre-state x arrival cases', n, 4000)
-    # closed branches refuse first
-    b = astq.stmts(fn)
-    ok = isinstance(b[0], ast.If) and astq.u(b[0].test) == 'self.closed' and isinstance(b[0].body[-1], ast.Raise)
+    # closed branches refuse first (folded: raises and leaves every container as it was)
+    it = Interp(dict(Emsg=Obj('Emsg', IllegalState=lambda *a: Exception('IllegalState')), Node=Obj('Node', Key=Obj('Key', sentence='sentence', world='world', world1='world1', world2='world2'),
+                                                                                           for_mapping=lambda mp: mp),
+                     Branch=Obj('Branch', Events=Obj('Events', AFTER_ADD='AFTER_ADD'))), where='proof/common.py Branch.append', modtree=m.trees[COMMON])
+    log = []
+    br = make_self(m, it, ClassRef(COMMON, 'Branch'), closed=True, _nodes=[], _constants=set(), _worlds=set(), _nextconst=K(0), _nextworld=0,
+                   emit=lambda *a: log.append('emit'), _index=Obj('index', add=lambda node: log.append('index')))
+    try:
+        it.call(fn, [br, {'sentence': MockSentence([K(0)]), 'world': 0}])
+        raised = False
+    except (Raised, Exception):
+        raised = True
+    ok = raised and not log and br._nodes == [] and not br._constants and not br._worlds and br._nextworld == 0
     rep.instance(R1, ok=ok, nontrivial='closed-guard')
     if not ok:
-        rep.finding(R1, 'C06.R1/Branch.append/closed-guard', m.loc(COMMON, fn), 'Branch.append', 'does not refuse a closed branch first')
+        rep.finding(R1, 'C06.R1/Branch.append/closed-guard', m.loc(COMMON, fn), 'Branch.append', 'does not refuse a closed branch before changing anything')
 
 
 def r2(ctx, rep):
     m = ctx.m
     R2 = rep.rule('C06.R2', 'marks and sets are written only in Branch.__init__/copy/append; new_constant/new_world return the marks')
     n = 0
+    # (private helper methods of Branch called only from the owners count as part of them)
+    OWN = astq.helper_closure(m, COMMON, 'Branch', OWNERS)
     for attr in PRIVATE:
         for mod, qn, fn, t, st in astq.attr_stores(m, attr):
             n += 1
-            ok = mod == COMMON and qn in OWNERS
+            ok = mod == COMMON and qn in OWN
             rep.instance(R2, ok=ok, nontrivial=(attr, qn))
             if not ok:
                 rep.finding(R2, f'C06.R2/write/{attr}/{mod}:{qn}', m.loc(mod, st), qn, f'`{astq.u(st)}` writes Branch.{attr} outside __init__/copy/append')
         for mod, qn, fn, c in astq.method_calls_on_attr(m, attr, ('add', 'update', 'discard', 'remove', 'clear', 'pop', 'difference_update', 'intersection_update')):
             n += 1
-            ok = mod == COMMON and qn in OWNERS
+            ok = mod == COMMON and qn in OWN
             rep.instance(R2, ok=ok, nontrivial=(attr, qn, 'call'))
             if not ok:
                 rep.finding(R2, f'C06.R2/mutate/{attr}/{mod}:{qn}', m.loc(mod, c), qn, f'`{astq.u(c)}` mutates Branch.{attr} outside __init__/copy/append')
